@@ -909,10 +909,12 @@ func TestCheck(t *testing.T) {
 		"Worlds (DIDs, keyAgreement keys, DAG with seeded participant subsets, hostile participant lists) and the message order are functions of the seed. " +
 		"Further case families: known transactions re-delivered in TransactionList messages (conversation kind, state of the known transaction, payload variant, stored before/after); " +
 		"transactions re-using the payload hash of a private transaction under the sender's own participant list (variant, querying peer, response); " +
-		"CreateTransaction over participant resolution/key situations (list shape, outcome) followed by every query type; payload queries while the node's own DID document is deactivated/unresolvable/keyless. " +
+		"CreateTransaction over participant resolution/key situations (list shape, outcome) followed by every query type; payload queries while the node's own DID document is deactivated/unresolvable/keyless; " +
+		"stream set-up on a node behind a TLS terminator: real connection manager + offloading interceptor + tlsAuthenticator + v2 stream over a loopback socket (terminator style, certificate header values sent by the client, node DID headers; result, identity of the connection, answer to a payload query read off the wire). " +
 		"A case is non-trivial when the addressed node holds at least one private payload (or, for authenticator cases, a certificate was evaluated); distinct by the tuple above.")
 	r.Require(r.Pick(500, 5000), r.Pick(80, 150))
-	r.Assume("peer identity (Authenticated, NodeDID) is what the connection carries: set by the harness for the three peer kinds, produced by the real tlsAuthenticator for the certificate cases")
+	r.Assume("peer identity (Authenticated, NodeDID) is what the connection carries: set by the harness for the three peer kinds, produced by the real tlsAuthenticator for the certificate cases, " +
+		"established by the real connection manager (offloading interceptor, handleInboundStream, tlsAuthenticator) for the stream set-up cases, where the ground truth is the certificate the harness (as TLS terminator) verified in the handshake")
 	r.Assume("handlers are driven synchronously through VerifHandleSync (same per-message handlers as protocol.handle); the goroutine fan-out of production Handle is not part of this check")
 
 	worlds := r.Pick(1, 4)
@@ -941,6 +943,7 @@ func TestCheck(t *testing.T) {
 			queries(n, "after-inbound")
 		}
 		authenticator(w, nodes[0])
+		streamSetup(w)
 		if wi == 0 {
 			r.Extra("transactions_in_initial_dag", len(w.txs))
 			classes := map[string]int{}
@@ -979,6 +982,9 @@ func TestCheck(t *testing.T) {
 	}
 	if r.Get("alias_admitted") == 0 {
 		r.Fatalf("no transaction re-using the payload hash of a private transaction was admitted: the same-payload-hash strategy was not exercised")
+	}
+	if r.Get("stream_setup_identity/authenticated-as-V") == 0 || r.Get("stream_setup_identity/no-connection") == 0 {
+		r.Fatalf("stream set-up: %d streams authenticated as the listed participant, %d refused: the terminator cases were not exercised", r.Get("stream_setup_identity/authenticated-as-V"), r.Get("stream_setup_identity/no-connection"))
 	}
 	if r.Get("create/created") == 0 || r.Get("create/refused") == 0 {
 		r.Fatalf("CreateTransaction: %d created, %d refused: the participant situations were not exercised", r.Get("create/created"), r.Get("create/refused"))
